@@ -1623,6 +1623,20 @@ func c10GoNestedOverrideRecurses(ctx *Ctx, r *Report) {
 	})
 	r.Count("override branches of golang.defaultsForStructRec", n)
 	r.Floor("override branches of golang.defaultsForStructRec", 1)
+	// the same for the function that formats one value of a default (the items of a list, the values of a map): an
+	// object given for a reference to a struct needs a case of its own
+	if vfd, _ := ctx.DeclOf(ctx.LookupMethod("internal/jennies/golang", "RawTypes", "formatDefaultValue")); vfd == nil {
+		r.Undecided("anchor lost: golang.RawTypes.formatDefaultValue")
+	} else {
+		structCase := false
+		for _, st := range vfd.Body.List {
+			if is, ok := st.(*ast.IfStmt); ok && strings.Contains(exprString(is.Cond), "IsStruct()") && endsInExit(is.Body) {
+				structCase = true
+			}
+		}
+		r.Check(structCase, "kinds/go-nested-override-recurses", "golang.formatDefaultValue struct items", vfd.Pos(), "an object given for a reference to a struct is written as that struct",
+			"formatDefaultValue has no case for an object given where the type resolves to a struct: `items: [...#Inner] | *[{a: \"y\", b: 2}]` gives `Items: []Inner{map[string]interface{}{\"a\": \"y\", \"b\": 2}}` — cannot use map[string]interface{}{…} as Inner value, the package does not compile")
+	}
 }
 
 // c10GoDateTimeDefaults: the Go type formatter declares a string carrying the date-time hint as time.Time; the
@@ -2363,6 +2377,21 @@ func c10EighthHunt(ctx *Ctx, r *Report) {
 	n++
 	r.Check(itemsThroughSelf && !itemsThroughScalar, "kinds/go-list-item-defaults-typed", "golang.formatDefaultValue writes the items of a default list", fd.Pos(), "through the function that formats a default of the item type",
 		"the items of a default list are written with the scalar formatter: `stamps: [date-time], default: [\"2020-01-02T03:04:05Z\"]` gives `[]time.Time{\"2020-01-02T03:04:05Z\"}` — cannot use a string as time.Time value, the package does not compile while Python yields the default")
+	// every component handed back to the function comes with the *resolved* type of the component (the second
+	// parameter): `formatDefaultValue(valueType, valueType, …)` never follows a reference to a named list or map
+	selfCalls, unresolved := 0, 0
+	ast.Inspect(fd.Body, func(m ast.Node) bool {
+		if c, ok := m.(*ast.CallExpr); ok && callee(info, c) == fn && len(c.Args) == 3 {
+			selfCalls++
+			if exprString(c.Args[0]) == exprString(c.Args[1]) {
+				unresolved++
+			}
+		}
+		return true
+	})
+	n++
+	r.Check(selfCalls >= 2 && unresolved == 0, "kinds/go-component-defaults-resolved", "golang.formatDefaultValue formats the components of a default collection", fd.Pos(), "against the resolved type of the component",
+		fmt.Sprintf("%d of the %d calls by which formatDefaultValue formats a component pass the type as it is written where the resolved type belongs: `#Ports: [...int64]; groups: {[string]: #Ports} | *{web: [80, 443]}` gives `map[string]Ports{\"web\": []any{80, 443}}` — cannot use []any{…} as Ports value, the package does not compile", unresolved, selfCalls))
 	bytesCase := false
 	ast.Inspect(fd.Body, func(m ast.Node) bool {
 		if is, ok := m.(*ast.IfStmt); ok && strings.Contains(exprString(is.Cond), "KindBytes") && endsInExit(is.Body) {
@@ -2388,5 +2417,5 @@ func c10EighthHunt(ctx *Ctx, r *Report) {
 			"maybeValueAsPointer wraps every optional scalar default in a pointer, bytes included, while the type formatter declares an optional bytes field `[]byte`: cannot use (value of type *[]byte) as []byte value in struct literal")
 	}
 	r.Count("hunted clauses of the default rules (8th hunt)", n)
-	r.Floor("hunted clauses of the default rules (8th hunt)", 3)
+	r.Floor("hunted clauses of the default rules (8th hunt)", 4)
 }
